@@ -113,6 +113,120 @@ def random_case(rng, side):
             "par": {"kind": "", "ct": ct, "limit": -1, "cls": cls, "ret": ret, "status": status}}
 
 
+# ---- C18 through the GENERATED clients: the decoder is the one clients.rs selects for the endpoint's return type ----------
+BAG = {"d": 1.5, "od": 2.5, "ld": [1.5], "md": {"k": 1.5}, "kd": {"1.5": "x"}, "sd": [], "nested": {"x": 2.5}, "lod": [None, 1.5], "mld": {}}
+GEN_RET = {   # return class -> [(endpoint, call arguments, what the handler returns, doc, doc with unknown field, doc of another type, malformed)]
+    "unit": [("unit", {"body": "x"}, None, b'{"x":[1,"a"]}', b'{"x":1}', b'"text"', b'{"x":}')],
+    "value": [("jsonBody", {"body": BAG}, {"d": 2.5}, b'{"d":2.5}', b'{"d":2.5,"zz":1}', b'"str"', b'{"d":2.5,,}'),
+              ("limited", {"body": "b"}, "text", b'"text"', b'"text"', b'12', b'"te\\qxt"')],
+    "default": [("listReturn", {"n": 1}, ["a"], b'["a","b"]', b'["a","b"]', b'{"a":1}', b'["a",,"b"]'),
+                ("optBody", {"body": None}, {"a": 2}, b'{"a":2}', b'{"a":2,"zz":[]}', b'"s"', b'{"a":2,,}')],
+    "binary": [("binaryBody", {"body": [1]}, [1, 2, 3], b"\x01\x02\x03", b"\x01\x02\x03", b"\x01\x02\x03", b"\x01\x02\x03")],
+    "optbinary": [("optBinaryReturn", {"n": 1}, [1, 2], b"\x01\x02", b"\x01\x02", b"\x01\x02", b"\x01\x02")],
+}
+GEN_CT = {"json": "application/json", "jsonparams": "application/json; charset=utf-8", "octet": "application/octet-stream",
+          "other": "text/plain", "near": "application/json+xml", "absent": None}
+
+
+def gen_body(cls, doc, unknown, wrong, k, malformed=None):
+    if cls == "empty":
+        return b""
+    if cls == "doc":
+        return doc
+    if cls == "docws":
+        return b" \n" + doc + b"\t \r\n"
+    if cls == "trailing":
+        return doc + [b" 1", b"}", b"x", b"\xff", b" \xfe"][k % 5]
+    if cls == "truncated":
+        return doc[:-1] if len(doc) > 1 else b"["
+    if cls == "malformed":
+        return malformed
+    if cls == "unknown":
+        return unknown
+    if cls == "wrongtype":
+        return wrong
+    raise vc.ToolError(cls)
+
+
+def cut_like(body, h):
+    """chunks following the abstract history: zeros are empty chunks, positive entries share the body proportionally; -1 = fault"""
+    data = [x for x in h if x >= 0]
+    total = sum(data)
+    chunks, pos, acc, fail_at = [], 0, 0, None
+    nz = [x for x in data if x > 0]
+    for x in h:
+        if x < 0:
+            if fail_at is None:
+                fail_at = len(chunks)
+            continue
+        if x == 0:
+            chunks.append([])
+            continue
+        acc += x
+        end = len(body) if acc == total else max(pos + 1, min(len(body) - (len(nz) - 1), len(body) * acc // total))
+        chunks.append(list(body[pos:end]))
+        pos = end
+    return chunks, fail_at
+
+
+def generated_clients_stage(out, cases, seed, tier, nontrivial):
+    docs, meta = [], {}
+    k = 0
+    for c in cases:
+        par, h = c["par"], c["h"]
+        total = sum(x for x in h if x >= 0)
+        for endpoint, args, ret, doc, unknown, wrong, malformed in GEN_RET[par["ret"]]:
+            if par["cls"] == "unknown" and unknown == doc or (par["cls"] == "wrongtype" and par["ret"] in ("binary", "optbinary")):
+                continue
+            body = gen_body(par["cls"], doc, unknown, wrong, k, malformed)
+            nonzero = len([x for x in h if x > 0])
+            if (total == 0) != (len(body) == 0) or nonzero > len(body):
+                continue
+            chunks, fail_at = cut_like(body, h)
+            muts = [{"op": "resp_status", "status": par["status"]}, {"op": "resp_ctype", "value": GEN_CT[par["ct"]]}, {"op": "resp_chunks", "chunks": chunks}]
+            if fail_at is not None:
+                muts.append({"op": "resp_fail_at", "index": fail_at})
+            for client in (["gen-blocking", "gen-async"] if tier == "thorough" else [["gen-blocking", "gen-async"][k % 2]]):
+                cid = "g%d" % k
+                k += 1
+                d = {"id": cid, "endpoint": endpoint, "args": args, "ret": ret, "client": client, "server": client, "mutations": muts, "smile": False, "chunk": 1}
+                docs.append(json.dumps(d))
+                meta[cid] = (c, d, doc, unknown)
+    n = 0
+    for obs in vc.ndjson(vc.harness_parallel("vgen", ["rpc"], docs, nproc=6)):
+        c, d, doc, unknown = meta[obs["id"]]
+        par = c["par"]
+        rep = {"case": d, "prop": c["prop"], "par": par, "h": c["h"]}
+        n += 1
+        if "panic" in obs:
+            out.violation("C18:generated:panic", "generated client panicked: %s" % str(obs["panic"])[:100], rep)
+            continue
+        if "skip" in obs:
+            raise vc.ToolError("rpc harness: %s" % obs["skip"])
+        err = obs["client"].get("err")
+        prop = c["prop"]
+        if err is not None:
+            if "error" not in prop:
+                out.violation("C18:generated:error-for-valid:%s:%s" % (par["ret"], par["cls"]), "the generated %s client fails on a complete, correctly typed response: %s" % (
+                    d["client"], str(err["cause"])[:100]), rep)
+            continue
+        if set(prop) == {"error"}:
+            out.violation("C18:generated:value-from-invalid:%s:%s" % (par["ret"], par["cls"] if par["status"] == 200 else "status204"),
+                          "the generated %s client of %s returns %s from status %s, Content-Type %s, a %s body, history %s" % (
+                              d["client"], d["endpoint"], json.dumps(obs["client"]["ok"])[:60], par["status"], par["ct"], par["cls"], c["h"]), rep)
+            continue
+        got = obs["client"]["ok"]
+        if "value" in prop and par["ret"] in ("value", "default") and par["status"] == 200:
+            want = json.loads(doc.decode())
+            if got != want and not (d["endpoint"] == "jsonBody"):
+                out.violation("C18:generated:wrong-value:%s" % par["ret"], "returned %s for body %s" % (json.dumps(got)[:60], doc[:40]), rep)
+        nontrivial.add(json.dumps(["gen", d["endpoint"], par, c["h"]], sort_keys=True))
+    if n != len(docs):
+        raise vc.ToolError("rpc harness answered %d of %d cases" % (n, len(docs)))
+    vc.log("[generated clients] %d scripted responses" % n)
+    return n
+
+
 def py_mech_prop(case):
     """python mirror of ServerProp/ClientProp for the random driver (the trace spec re-checks it in TLA+)."""
     par, h = case["par"], case["h"]
@@ -213,6 +327,8 @@ def run_side(pid, side, tier, seed):
             samples.append({"kind": "S->I", "case": d, "prop": c["prop"], "mech": c["mech"], "observed": obs})
     if skipped > replayed // 5:
         raise vc.ToolError("%d of %d cases could not be concretised" % (skipped, skipped + replayed))
+    if side == "client":
+        replayed += generated_clients_stage(out, cases, seed, tier, nontrivial)
 
     # ---- I->S ----
     nruns = 2500 if tier == "quick" else 25000
